@@ -14,11 +14,13 @@ def bank(D, M=3):
     return _BANK[(D, M)]
 
 
-def one(D, sin, sout, opt, use_bias, shape=None):
+def one(D, sin, sout, opt, use_bias, shape=None, equal_channels=False, history="pytree"):
+    """history: 'pytree' (default; the layer goes through eqx.tree_at, i.e. a pytree flatten / unflatten, before the call -- what
+    every jit, optimiser step and load does) or 'fresh'"""
     sin, sout = keys(sin), keys(sout)
     fb = bank(D)
-    ci = {k: 1 + i for i, k in enumerate(sin)}
-    co = {k: 2 + (i % 2) for i, k in enumerate(sout)}
+    ci = {k: 2 if equal_channels else 1 + i for i, k in enumerate(sin)}
+    co = {k: 3 if equal_channels else 2 + (i % 2) for i, k in enumerate(sout)}
     isig = geom.Signature(tuple((k, ci[k]) for k in sin))
     osig = geom.Signature(tuple((k, co[k]) for k in sout))
     rd = opt["rdil"]
@@ -34,10 +36,11 @@ def one(D, sin, sout, opt, use_bias, shape=None):
     # move the parameters away from their initial values
     import equinox as eqx
     new_bias = {k: jnp.array(rng.integers(1, 4, size=v.shape).astype(np.float32)) for k, v in layer.bias.items()}
-    layer = eqx.tree_at(lambda l: l.bias, layer, new_bias)
+    if history != "fresh":
+        layer = eqx.tree_at(lambda l: l.bias, layer, new_bias)
     X = {k: rng.integers(-2, 3, size=(ci[k],) + tuple(shape) + (D,) * k[0]).astype(np.float64) for k in sin}
     out = layer(make_mi(X, sin, D, flags))
-    call = f"ConvContract D={D} in={sin} out={sout} opt={opt} use_bias={use_bias} shape={shape}"
+    call = f"ConvContract D={D} in={sin} out={sout} opt={opt} use_bias={use_bias} shape={shape} equal_channels={equal_channels} history={history}"
     mode = "auto" if use_bias is True else use_bias
     spec = {}
     for t in sout:
@@ -68,7 +71,9 @@ def one(D, sin, sout, opt, use_bias, shape=None):
 
 
 def replay(req):
-    d, call = one(req["D"], req["sin"], req["sout"], req["opt"], req["use_bias"])
+    d, call = one(req["D"], req["sin"], req["sout"], req["opt"], req["use_bias"], equal_channels=bool(req.get("equal_channels")), history=req.get("history") or "pytree")
+    if d is None and req.get("equal_channels") is None:
+        d, call = one(req["D"], req["sin"], req["sout"], req["opt"], req["use_bias"], equal_channels=True)
     return {"ok": True, "confirmed": d is not None, "detail": d, "call": call}
 
 
@@ -90,7 +95,15 @@ def standin(req):
                         fails.append({"name": call, "detail": d, "request": dict(scenario="layer", D=D, sin=si, sout=so, opt=o, use_bias=ub)})
                         if len(fails) >= 3:
                             return {"ok": True, "evaluations": n, "failures": fails}
-    return {"ok": True, "evaluations": n, "failures": fails, "grid": "4 signature pairs x 4 option sets x 5 bias settings, real invariant filter bank (M=3), perturbed biases, even extents with stride 2"}
+        # equal channel counts, targets in non-sorted order, fresh and pytree-round-tripped layers
+        for (si, so) in [([(0, 0), (1, 0)], [(1, 0), (0, 0)]), ([(1, 0)], [(1, 0), (0, 0)]), ([(0, 0), (1, 0)], [(0, 0), (1, 0), (0, 1)])]:
+            for hist in ["pytree", "fresh"]:
+                for ub in ["auto", False]:
+                    d, call = one(D, si, so, opts[0], ub, equal_channels=True, history=hist)
+                    n += 1
+                    if d is not None:
+                        fails.append({"name": call, "detail": d, "request": dict(scenario="layer", D=D, sin=si, sout=so, opt=opts[0], use_bias=ub, equal_channels=True, history=hist)})
+    return {"ok": True, "evaluations": n, "failures": fails, "grid": "equal-channel layers with non-sorted targets (fresh / after a pytree round trip); 4 signature pairs x 4 option sets x 5 bias settings, real invariant filter bank (M=3), perturbed biases, even extents with stride 2"}
 
 
 main({"replay": replay, "search": replay, "standin": standin})
